@@ -3,6 +3,7 @@ import WuffsVerif.Model.ObjInit
 import WuffsVerif.Model.Choose
 import WuffsVerif.Model.JpegIdctRange
 import WuffsVerif.Model.HashSpec
+import WuffsVerif.Model.Adler32Sse
 import WuffsVerif.Model.CoroFrame
 import WuffsVerif.Gen.C09_StdFields
 import WuffsVerif.Model.PngFilterSse
@@ -15,9 +16,10 @@ import WuffsVerif.Model.PngFilterSse
   choose <defined-macros> <have> <cur> <name:arch>…      (lists comma separated, `-` = empty)
      -> sel <name>
   idct <64 u16 LE coefficients, hex> <64 u8 quants, hex>
-     -> p=<64 bytes portable> a=<64 bytes avx2 emulation> inrange=<0|1> fit=<0|1>
-        (fit = `lanesFit`, the hypothesis of `idct_block_variants_agree`)
-  idctp … -> p=<…> inrange=<0|1> fit=<0|1>
+     -> p=<64 bytes portable> a=<64 bytes avx2 emulation> inrange=<0|1> fit=<0|1> fit2=<0|1>
+        (fit = `lanesFit`, the hypothesis of `idct_block_variants_agree`; fit2 = `lanesFit2`, the weaker
+         lane condition that `blockInRange` implies: `blockInRange_imp_lanesFit2`)
+  idctp … -> p=<…> inrange=<0|1> fit=<0|1> fit2=<0|1>
   adler32|crc32|crc64 <hex> -> v <decimal>
   adler32x|crc32x|crc64x <seg>…   seg = h:<hex> | r:<hh>*<count>   (long worst-case inputs, e.g. runs of 0xFF)
      -> v <decimal>
@@ -174,10 +176,21 @@ def idctOp (withAvx : Bool) (l : List String) : String :=
       let p := idctPortable b qa
       let ir := if blockInRange b qa then "1" else "0"
       let fit := if lanesFit b qa then "1" else "0"
-      if withAvx then s!"p={toHex p} a={toHex (idctAvx2 b qa)} inrange={ir} fit={fit}"
-      else s!"p={toHex p} inrange={ir} fit={fit}"
+      let fit2 := if lanesFit2 b qa then "1" else "0"
+      if withAvx then s!"p={toHex p} a={toHex (idctAvx2 b qa)} inrange={ir} fit={fit} fit2={fit2}"
+      else s!"p={toHex p} inrange={ir} fit={fit} fit2={fit2}"
     | _, _ => "bad-op"
   | _ => "bad-op"
+
+/-- Adler-32 three ways: the RFC 1950 reference, the portable chunked u32 loop (`Adler32Up.hash 5552`) and the
+SSE4.2 lane model (`Adler32Sse.hashSse 5536`).  `hash_spec` / `hashSse_spec` prove the three equal for all inputs;
+the driver EXECUTES the two loop models as well, so that the value compared with every build of the compiled
+code is also the lane model's (a disagreement would print a line no implementation produces). -/
+def adler3 (bs : List UInt8) : String :=
+  let v := HashSpec.adler32 bs
+  let p := Adler32Up.hash 5552 bs
+  let s := Adler32Sse.hashSse 5536 bs
+  if p == v && s == v then toString v else s!"{v} MODELS-DISAGREE portable={p} sse42={s}"
 
 def hashOp (f : List UInt8 → Nat) (l : List String) : String :=
   match l with
@@ -262,14 +275,22 @@ def step (l : List String) : String :=
   | "choose" :: rest => chooseOp rest
   | "idct" :: rest => idctOp true rest
   | "idctp" :: rest => idctOp false rest
-  | "adler32" :: rest => hashOp HashSpec.adler32 rest
+  | "adler32" :: rest =>
+    (match rest with
+     | [h] => match fromHex h with
+       | some bs => "v " ++ adler3 bs
+       | none => "bad-op"
+     | _ => "bad-op")
   | "crc32" :: rest => hashOp HashSpec.crc32 rest
   | "crc64" :: rest => hashOp HashSpec.crc64 rest
   | "coroframe" :: rest => coroOp rest
   | "partition" :: rest => partitionOp rest
   | "pngfilter" :: rest => pngFilterOp true rest
   | "pngfilterp" :: rest => pngFilterOp false rest
-  | "adler32x" :: rest => hashSegOp HashSpec.adler32 rest
+  | "adler32x" :: rest =>
+    (match parseSegs rest with
+     | some bs => "v " ++ adler3 bs
+     | none => "bad-op")
   | "crc32x" :: rest => hashSegOp HashSpec.crc32 rest
   | "crc64x" :: rest => hashSegOp HashSpec.crc64 rest
   | _ => "bad-op"
